@@ -21,6 +21,7 @@ RULE = ('(a) Hypothesis-generated namespaces in hostile mode: callables (functio
         'struct returns, callback-typed fields, GObject properties and signals naming hidden types, with randomly drawn (valid '
         'or not) annotations; (b) every *.gir under tests/scanner and gir/. non-trivial = the output has at least one demoted '
         '(introspectable="0") element AND an introspectable element that references an in-namespace type; distinct = hash of the case')
+RULE = RULE + ' ' + 'The generator also draws property accessor methods with (set-property)/(get-property)/(setter)/(getter) annotations naming the same, another or a missing target, callback chains whose last link is unbindable, a second interface with drawn prerequisites, and twin callables differing in one annotation detail.'
 ASSUMPTIONS = [
     'substrate P: cmodel.to_symbols mirrors scannerparser.y (calibrated by tools/calibrate_p.py)',
     'include namespaces for generated cases are the small fixture GIRs; for shipped files names come from gir/, tests/scanner and '
